@@ -99,6 +99,76 @@ fn canvas_ids(canvas: &SurfaceOwned<Cell>) -> Vec<i64> {
         .collect()
 }
 
+/// the eight cell kinds of spec/text/FlowGen.tla
+fn cells_of_kinds(kinds: &[u64], ppc: Size) -> Vec<Gen> {
+    let path: Path = "M0,0 L1,0 L1,1 Z".parse().unwrap();
+    kinds
+        .iter()
+        .enumerate()
+        .map(|(i, k)| {
+            let f = face_of(i);
+            match k {
+                1 => Gen { cell: Cell::new_char(f, 'x'), desc: json!({"k": "ch", "w": 1, "h": 1, "fb": []}) },
+                2 => Gen { cell: Cell::new_char(f, '日'), desc: json!({"k": "ch", "w": 2, "h": 1, "fb": []}) },
+                3 => Gen { cell: Cell::new_char(f, '\u{200b}'), desc: json!({"k": "ch", "w": 0, "h": 1, "fb": []}) },
+                4 => Gen { cell: Cell::new_char(f, '\n'), desc: json!({"k": "nl", "w": 0, "h": 0, "fb": []}) },
+                5 => Gen { cell: Cell::new_char(f, '\t'), desc: json!({"k": "tab", "w": 0, "h": 0, "fb": []}) },
+                6 => Gen { cell: Cell::new_glyph(f, Glyph::new(path.clone(), FillRule::NonZero, None, Size::new(1, 2), "ab".to_string(), None)), desc: json!({"k": "gl", "w": 2, "h": 1, "fb": [1, 1]}) },
+                7 => Gen { cell: Cell::new_glyph(f, Glyph::new(path.clone(), FillRule::NonZero, None, Size::new(1, 1), "本".to_string(), None)), desc: json!({"k": "gl", "w": 1, "h": 1, "fb": [2]}) },
+                _ => {
+                    let img = Image::from(SurfaceOwned::new_with(Size::new(ppc.height, 2 * ppc.width), |_| RGBA::new(1, 2, 3, 255)));
+                    Gen { cell: Cell::new_image(img).with_face(f), desc: json!({"k": "im", "w": 2, "h": 1, "fb": []}) }
+                }
+            }
+        })
+        .collect()
+}
+
+/// lay a Text out for `width`, render it into a surface of the reported size inside a sentinel canvas, log the read-back
+fn run_text(id: u64, cells: &[Gen], width: usize, wraps: bool, glyphs: bool, ctx: &ViewContext, out: &mut Out) {
+    let descs: Vec<Value> = cells.iter().map(|g| g.desc.clone()).collect();
+    let res = guarded(|| {
+        let mut text = Text::new();
+        text.set_wraps(wraps);
+        for g in cells {
+            text.put_cell(g.cell.clone());
+        }
+        let mut store = ViewLayoutStore::new();
+        let layout = text.layout_new(ctx, BoxConstraint::loose(Size::new(1000, width)), &mut store).unwrap();
+        let size = layout.size();
+        // canvas with a sentinel border of 2 cells
+        let mut canvas: SurfaceOwned<Cell> = SurfaceOwned::new_with(Size::new(size.height + 4, size.width + 4), |_| sentinel());
+        {
+            let mut view = canvas.view_mut(2..2 + size.height as i64, 2..2 + size.width as i64);
+            // what is inside starts as the sentinel too, so that untouched cells are visible
+            text.render(ctx, view.as_mut(), layout.view()).unwrap();
+        }
+        let s = sentinel();
+        let mut read = Vec::new();
+        let mut outside = 0;
+        for row in 0..canvas.height() {
+            for col in 0..canvas.width() {
+                let c = canvas.get(Position::new(row, col)).unwrap();
+                let inside = row >= 2 && row < 2 + size.height && col >= 2 && col < 2 + size.width;
+                if inside {
+                    let ix = index_of(c, &s);
+                    if ix >= 1 {
+                        read.push(ix);
+                    }
+                } else if c != &s {
+                    outside += 1;
+                }
+            }
+        }
+        (read, outside, size)
+    });
+    match res {
+        Ok((read, outside, size)) => out.rec(&json!({"id": id, "t": "text", "cells": descs, "width": width, "wraps": wraps, "glyphs": glyphs, "read": read, "outside": outside,
+                                                      "size": [size.height, size.width], "runs": [], "panic": ""})),
+        Err(m) => out.rec(&json!({"id": id, "t": "text", "cells": descs, "width": width, "wraps": wraps, "glyphs": glyphs, "read": [], "outside": 0, "size": [0, 0], "runs": [], "panic": m})),
+    }
+}
+
 /// c09-drive --n N --seed S
 pub fn drive(args: &[String]) {
     let n = arg_u64(args, "--n", 300) as usize;
@@ -106,6 +176,19 @@ pub fn drive(args: &[String]) {
     let mut rnd = Rng::new(seed ^ 0xc09);
     let mut out = Out::new();
     let mut id = 0u64;
+    if args.iter().any(|a| a == "--vectors") {
+        // TLC-generated small-scope vectors (spec/text/FlowGen.tla): {cells: kind codes, width, wraps, glyphs}
+        let base = arg_u64(args, "--base", 0);
+        for v in stdin_records() {
+            let glyphs = v["glyphs"].as_bool().unwrap();
+            let ctx = ctx_for(glyphs);
+            let kinds: Vec<u64> = v["cells"].as_array().unwrap().iter().map(|k| k.as_u64().unwrap()).collect();
+            let cells = cells_of_kinds(&kinds, ctx.pixels_per_cell());
+            run_text(base + id, &cells, v["width"].as_u64().unwrap() as usize, v["wraps"].as_bool().unwrap(), glyphs, &ctx, &mut out);
+            id += 1;
+        }
+        return;
+    }
     // ---- Text laid out and rendered into a surface of its own reported size
     for round in 0..n {
         let glyphs = round % 2 == 0;
@@ -114,47 +197,7 @@ pub fn drive(args: &[String]) {
         let ctx = ctx_for(glyphs);
         let ncells = 1 + rnd.below(24);
         let cells = gen_cells(&mut rnd, ncells, ctx.pixels_per_cell());
-        let descs: Vec<Value> = cells.iter().map(|g| g.desc.clone()).collect();
-        let res = guarded(|| {
-            let mut text = Text::new();
-            text.set_wraps(wraps);
-            for g in &cells {
-                text.put_cell(g.cell.clone());
-            }
-            let mut store = ViewLayoutStore::new();
-            let layout = text.layout_new(&ctx, BoxConstraint::loose(Size::new(1000, width)), &mut store).unwrap();
-            let size = layout.size();
-            // canvas with a sentinel border of 2 cells
-            let mut canvas: SurfaceOwned<Cell> = SurfaceOwned::new_with(Size::new(size.height + 4, size.width + 4), |_| sentinel());
-            {
-                let mut view = canvas.view_mut(2..2 + size.height as i64, 2..2 + size.width as i64);
-                // what is inside starts as the sentinel too, so that untouched cells are visible
-                text.render(&ctx, view.as_mut(), layout.view()).unwrap();
-            }
-            let s = sentinel();
-            let mut read = Vec::new();
-            let mut outside = 0;
-            for row in 0..canvas.height() {
-                for col in 0..canvas.width() {
-                    let c = canvas.get(Position::new(row, col)).unwrap();
-                    let inside = row >= 2 && row < 2 + size.height && col >= 2 && col < 2 + size.width;
-                    if inside {
-                        let ix = index_of(c, &s);
-                        if ix >= 1 {
-                            read.push(ix);
-                        }
-                    } else if c != &s {
-                        outside += 1;
-                    }
-                }
-            }
-            (read, outside, size)
-        });
-        match res {
-            Ok((read, outside, size)) => out.rec(&json!({"id": id, "t": "text", "cells": descs, "width": width, "wraps": wraps, "glyphs": glyphs, "read": read, "outside": outside,
-                                                          "size": [size.height, size.width], "runs": [], "panic": ""})),
-            Err(m) => out.rec(&json!({"id": id, "t": "text", "cells": descs, "width": width, "wraps": wraps, "glyphs": glyphs, "read": [], "outside": 0, "size": [0, 0], "runs": [], "panic": m})),
-        }
+        run_text(id, &cells, width, wraps, glyphs, &ctx, &mut out);
         id += 1;
     }
     // ---- writer adapters under chunkings, into sub-views of a sentinel canvas
